@@ -1,7 +1,67 @@
 """./check selftest: binds the reference models to ground truth (recorded corpus), see DESIGN.md 2.4.
 A failure here is 'harness broken' (exit 2), never a VIOLATION."""
-import os, sys, subprocess
+import os, sys, subprocess, glob
 import build
+from vlib import lzhfmt
+
+REPO = build.REPO
+CORPUS = os.path.join(REPO, "test", "archives")
+
+
+def corpus_files():
+    out = []
+    for root, _, files in os.walk(CORPUS):
+        for f in sorted(files):
+            if f == "README":
+                continue
+            out.append(os.path.join(root, f))
+    return sorted(out)
+
+
+def find_first_header(buf):
+    """offset of the first header (corpus SFX files carry stubs)"""
+    for i in range(0, min(len(buf), 1 << 18)):
+        if buf[i + 2:i + 3] == b"-" and buf[i + 6:i + 7] == b"-" and buf[i + 3:i + 5] in (b"lh", b"lz", b"pm"):
+            h = lzhfmt.parse_header(buf, i)
+            if h is not None:
+                return i
+    return None
+
+
+def corpus_members():
+    for path in corpus_files():
+        buf = open(path, "rb").read()
+        off = find_first_header(buf)
+        if off is None:
+            continue
+        while off < len(buf):
+            h = lzhfmt.parse_header(buf, off)
+            if h is None:
+                break
+            yield path, h
+            off = h.data_off + h.data_len
+
+
+def t_ref_decoders():
+    exe = build.ensure_explorer("ref_selftest", "plain", lib=False)
+    lines = []
+    methods = {}
+    for path, h in corpus_members():
+        m = h.method.decode("latin1")
+        if m == "-lhd-" or h.data_off + h.data_len > os.path.getsize(path):
+            continue
+        if m == "-lh7-" and h.level == 1 and h.os == 0x20:
+            m = "-lk7-"
+        if "truncated" in path or "badterm" in path:
+            continue
+        lines.append("%s %d %x %s %d %d" % (m, h.size, h.crc, path, h.data_off, h.data_len))
+        methods[m] = methods.get(m, 0) + 1
+    r = subprocess.run([exe], input="\n".join(lines).encode(), stdout=subprocess.PIPE)
+    out = r.stdout.decode()
+    bad = [l for l in out.splitlines() if l.startswith("FAIL")]
+    skipped = sorted(set(l.split()[1] for l in out.splitlines() if l.startswith("SKIP")))
+    res = [l for l in out.splitlines() if l.startswith("RESULT")]
+    return (not bad and bool(res)), "%s methods=%s no-ref-decoder=%s %s" % (res[0] if res else "?", methods, skipped, bad[:3])
 
 
 def main():
@@ -10,11 +70,13 @@ def main():
         try:
             ok, msg = fn()
         except Exception as e:  # noqa
+            import traceback
+            traceback.print_exc()
             ok, msg = False, repr(e)
-        print("selftest %-28s %s %s" % (name, "ok" if ok else "FAILED", msg))
+        print("selftest %-22s %s %s" % (name, "ok" if ok else "FAILED", msg))
         if not ok:
             rc = 2
     return rc
 
 
-TESTS = []
+TESTS = [("ref-decoders-vs-corpus", t_ref_decoders)]
